@@ -5,7 +5,7 @@ from .engine import (I, R, B, A1, A2, CPLX, cmul, fresh, OutOfFragment, Contract
                      Gather, ArrCmp, ListObj, Obj, Unbound, PyConst, State, VC, SpecEval, elem_sort, arr_sort,
                      is_z3, to_z3, as_bool, as_num, compare, scalar_binop, array_binop)
 
-TYPE_ARR = {'int1': (1, 'int'), 'int2': (2, 'int'), 'real1': (1, 'real'), 'cplx1': (1, 'cplx'), 'int3': (3, 'int')}
+TYPE_ARR = {'int1': (1, 'int'), 'int2': (2, 'int'), 'real1': (1, 'real'), 'cplx1': (1, 'cplx'), 'cplx2': (2, 'cplx'), 'int3': (3, 'int')}
 
 
 class Tag(object):
@@ -644,6 +644,8 @@ class FuncVerifier(object):
     def coerce_elem(self, val, elem, node):
         if isinstance(val, (Ref, View, AV, tuple)):
             raise OutOfFragment('storing a non-scalar into an element', node)
+        if elem == 'cplx':
+            return self.cplx_of(val)
         v = to_z3(val)
         if elem == 'int':
             v = as_num(v)
@@ -989,9 +991,38 @@ class FuncVerifier(object):
             return self.bin(n.op, s_, to_z3(2), st, n)
         a = self.pev(n.left, st)
         b = self.pev(n.right, st)
+        if isinstance(a, Ref) and isinstance(st.heap.get(a.loc), Obj):
+            # operator on an object: dispatch to the dunder method of its class (contract if there is one, else inlined)
+            dunder = {ast.MatMult: '__matmul__', ast.Add: '__add__', ast.Sub: '__sub__', ast.Mult: '__mul__'}.get(type(n.op))
+            if dunder is None:
+                raise OutOfFragment('operator %s on an object' % type(n.op).__name__, n)
+            o = st.heap[a.loc]
+            m = self.find_method(o.cls, dunder)
+            if m is None:
+                raise OutOfFragment('%s has no %s' % (o.cls, dunder), n)
+            mfile, mcls, mdef = m
+            callee = self.lib.contracts.get('%s::%s.%s' % (mfile, mcls, dunder))
+            if callee is not None:
+                return self.call_contract('%s.%s' % (mcls, dunder), [a, b], n, st, mfile, callee=callee)
+            return self.inline_call(mfile, mcls, mdef, [a, b], {}, st, n)
         return self.bin(n.op, a, b, st, n)
 
     def bin(self, op, a, b, st, node):
+        if isinstance(a, PyConst) or isinstance(b, PyConst):
+            def pv(x):
+                if isinstance(x, PyConst):
+                    return x.value
+                xs = z3.simplify(to_z3(x))
+                if z3.is_int_value(xs):
+                    return xs.as_long()
+                if z3.is_rational_value(xs):
+                    return float(xs.numerator_as_long()) / float(xs.denominator_as_long())
+                raise OutOfFragment('arithmetic between a Python constant and a symbolic value', node)
+            x, y = pv(a), pv(b)
+            f = {ast.Add: lambda: x + y, ast.Sub: lambda: x - y, ast.Mult: lambda: x * y, ast.Div: lambda: x / y}.get(type(op))
+            if f is None:
+                raise OutOfFragment('operator on Python constants', node)
+            return PyConst(f())
         arr_a = isinstance(a, (Ref, View, AV))
         arr_b = isinstance(b, (Ref, View, AV))
         if arr_a or arr_b:
@@ -1369,6 +1400,16 @@ class FuncVerifier(object):
             raise OutOfFragment('%s outside a for header' % name, n)
         raise OutOfFragment('builtin %s' % name, n)
 
+    def cplx_of(self, v):
+        """a complex scalar as a term of the abstract sort Cplx (Python constants become named constants)"""
+        if isinstance(v, PyConst):
+            if v.value == 1:
+                return z3.Const('cplx_one', CPLX)
+            return z3.Const('cplx_const_%s' % repr(complex(v.value)).strip('()').replace('+', 'p').replace('-', 'm').replace('.', '_'), CPLX)
+        if is_z3(v) and v.sort() == CPLX:
+            return v
+        raise OutOfFragment('cannot use %r as a complex coefficient' % (v,))
+
     def shape_arg(self, v, node):
         if isinstance(v, tuple):
             return tuple(as_num(x) for x in v)
@@ -1391,6 +1432,12 @@ class FuncVerifier(object):
             else:
                 raise OutOfFragment('dtype %s' % d, n)
         short = name.split('.', 1)[1] if '.' in name else name
+        if short == 'ones':
+            shp = self.shape_arg(self.pev(n.args[0], st), n)
+            if dtype == 'int':
+                return st.alloc(AV(const_array(len(shp), 'int', z3.IntVal(1)), shp, 'int'))
+            one = z3.Const('cplx_one', CPLX)
+            return st.alloc(AV(const_array(len(shp), dtype, one), shp, dtype))
         if short in ('zeros', 'empty'):
             if len(n.args) == 2:      # positional dtype
                 d = ast.unparse(n.args[1])
@@ -1418,6 +1465,19 @@ class FuncVerifier(object):
             eye = fresh('eye', A2)
             st.pc.append(z3.ForAll([i, j], eye[i][j] == z3.If(i == j, z3.IntVal(1), z3.IntVal(0)), patterns=[eye[i][j]]))
             return st.alloc(AV(eye, (nn, nn)))
+        if short == 'expand_dims':
+            src = self.deref(self.pev(n.args[0], st), st)
+            ax = z3.simplify(as_num(self.pev(n.args[1], st)))
+            if src.ndim != 1 or not (z3.is_int_value(ax) and ax.as_long() == 0):
+                raise OutOfFragment('expand_dims other than (1-D array, 0)', n)
+            return st.alloc(AV(z3.K(I, src.term), (z3.IntVal(1), src.shape[0]), src.elem))     # every row is the string (only row 0 exists)
+        if short == 'array' and isinstance(n.args[0], ast.List) and 'dtype' in kw:
+            items = [self.pev(e_, st) for e_ in n.args[0].elts]
+            vals = [self.cplx_of(x) if dtype == 'cplx' else as_num(x) for x in items]
+            term = fresh('lit', arr_sort(1, dtype))
+            for k_, v_ in enumerate(vals):
+                st.pc.append(z3.Select(term, k_) == v_)
+            return st.alloc(AV(term, (z3.IntVal(len(vals)),), dtype))
         if short == 'array' and not isinstance(n.args[0], ast.List):
             v = self.pev(n.args[0], st)
             if isinstance(v, (Ref, View, AV)) and not (isinstance(v, Ref) and not isinstance(st.heap[v.loc], AV)):
@@ -1430,6 +1490,33 @@ class FuncVerifier(object):
                 if all(is_z3(x) and z3.is_int(x) for x in items):
                     return IdxList(items)
             raise OutOfFragment('numpy.array(...) form', n)
+        if short == 'reshape':
+            # numpy.reshape(a, (L1*L2, -1)) / (L1*L2,) of an array built as a[j1, j2(, c)]: row-major flattening of the first two axes
+            src = self.deref(self.pev(n.args[0], st), st)
+            shp = self.pev(n.args[1], st)
+            shp = shp if isinstance(shp, tuple) else (shp,)
+            if src.ndim not in (2, 3) or len(shp) != src.ndim - 1:
+                raise OutOfFragment('reshape other than merging the first two axes', n)
+            d0, d1 = src.shape[0], src.shape[1]
+            want0 = as_num(shp[0])
+            self.oblige(st, self.site(n, 'reshape'), want0 == d0 * d1, n)
+            tail_shape = tuple(src.shape[2:])
+            if src.ndim == 3:
+                last = z3.simplify(as_num(shp[1]))
+                if not (z3.is_int_value(last) and last.as_long() == -1):
+                    self.oblige(st, self.site(n, 'reshape'), as_num(shp[1]) == src.shape[2], n)
+                else:
+                    # -1 can only be inferred for a non-empty array; for an empty one the column count is unknown
+                    cfree = fresh('cols', I)
+                    st.pc.append(cfree >= 0)
+                    st.pc.append(z3.Implies(d0 * d1 > 0, cfree == src.shape[2]))
+                    tail_shape = (cfree,)
+            res = fresh('reshaped', arr_sort(src.ndim - 1, src.elem))
+            a_, b_ = fresh('a', I), fresh('b', I)
+            lhs = z3.Select(res, a_ * d1 + b_)
+            rhs = z3.Select(z3.Select(src.term, a_), b_)
+            st.pc.append(z3.ForAll([a_, b_], z3.Implies(z3.And(0 <= a_, a_ < d0, 0 <= b_, b_ < d1), lhs == rhs), patterns=[lhs]))
+            return st.alloc(AV(res, (d0 * d1,) + tail_shape, src.elem))
         if short == 'random.randint':
             args = [self.pev(a, st) for a in n.args]
             if len(args) == 1:
